@@ -128,15 +128,15 @@ theorem parseStatement_binding (b : BindL) (hk : KeyToks b.toks b.key b.line) (r
   have hall : Clean (b.render ++ r) := clean_append (b.render_clean hk) hr
   have hskip : ¬ skippable false t = true := by simp [skippable, hname]
   -- 1. leading trivia is skipped and the name is reached
-  have hdrop : dropTriv (b.render ++ r) =
+  have hdrop : dropTriv false (b.render ++ r) =
       b.toks ++ opTok "=" :: (Gin.Parser.render b.value ++ newlineTok :: r) := by
-    simp only [BindL.render, List.append_assoc, List.cons_append, List.nil_append, dropTriv_triv]
+    simp only [BindL.render, List.append_assoc, List.cons_append, List.nil_append, dropTriv_triv false]
     rw [htoks]
-    exact dropTriv_cons_of_not _ _ (by simpa using hskip)
+    exact dropTriv_cons_of_not false _ _ (by simpa using hskip)
   have hcur : cur (b.toks ++ opTok "=" :: (Gin.Parser.render b.value ++ newlineTok :: r)) = t := by
     rw [htoks]; rfl
   unfold parseStatement
-  simp only [Bool.false_eq_true, if_false, skipWs_clean _ hall, hdrop, hcur, hname, hline]
+  simp only [Bool.false_eq_true, if_false, skipWs_clean false _ hall, hdrop, hcur, hname, hline]
   have hne : (TKind.name == TKind.endmarker) = false := by decide
   have hnotempty : (b.toks ++ opTok "=" :: (Gin.Parser.render b.value ++ newlineTok :: r)).isEmpty = false := by
     rw [htoks]; rfl
@@ -150,13 +150,13 @@ theorem parseStatement_binding (b : BindL) (hk : KeyToks b.toks b.key b.line) (r
   have hfuel : size b.value ≤ 3 * (Gin.Parser.render b.value ++ newlineTok :: r).length + 3 := by
     have := size_le b.value
     simp only [List.length_append]; omega
-  have hns : NoStr (newlineTok :: r) := by
+  have hns : NoStr false (newlineTok :: r) := by
     unfold NoStr
-    rw [dropTriv_cons_of_not _ _ (by simp [skippable, newlineTok])]
+    rw [dropTriv_cons_of_not false _ _ (by simp [skippable, newlineTok])]
     simp [cur_cons, newlineTok]
-  rw [parse_render b.value _ (newlineTok :: r) (clean_cons rfl hr) hns hfuel]
-  have hnl : dropTriv (newlineTok :: r) = newlineTok :: r :=
-    dropTriv_cons_of_not _ _ (by simp [skippable, newlineTok])
+  rw [parse_render false b.value _ (newlineTok :: r) (clean_cons rfl hr) hns hfuel]
+  have hnl : dropTriv false (newlineTok :: r) = newlineTok :: r :=
+    dropTriv_cons_of_not false _ _ (by simp [skippable, newlineTok])
   simp only [hnl, finishStmt, cur_cons, BindL.stmt]
   simp [isEnd, newlineTok]
 
@@ -171,9 +171,9 @@ theorem parseStatement_end (post : List Bool) :
     parseStatement false (triv post ++ [endTok]) = .ok none := by
   have hc : Clean (triv post ++ [endTok]) :=
     clean_append (triv_clean _) (clean_cons rfl (fun _ h => by cases h))
-  have : dropTriv [endTok] = [endTok] := dropTriv_cons_of_not _ _ (by simp [skippable, endTok])
+  have : dropTriv false [endTok] = [endTok] := dropTriv_cons_of_not false _ _ (by simp [skippable, endTok])
   unfold parseStatement
-  simp only [Bool.false_eq_true, if_false, skipWs_clean _ hc, dropTriv_triv, this, cur_cons]
+  simp only [Bool.false_eq_true, if_false, skipWs_clean false _ hc, dropTriv_triv false, this, cur_cons]
   simp [endTok]
 
 /-- **Statement-level completeness for flat bindings.**  Any sequence of binding statements, each
@@ -289,9 +289,9 @@ theorem demoKey_ok : KeyToks demoKey "a/m.x" 1 where
     simp only [demoKey, List.cons_append, List.nil_append, cur_cons, List.length_cons]
     rw [go_name _ _ _ _ _ rfl c4, go_sep _ _ _ _ _ rfl (Or.inl rfl) c3, go_name _ _ _ _ _ rfl c2,
         go_sep _ _ _ _ _ rfl (Or.inr rfl) c1, go_name _ _ _ _ _ rfl c0, go_stop _ _ _ _ _ (by rfl)]
-    have hd : dropTriv (opTok "=" :: r) = opTok "=" :: r :=
-      dropTriv_cons_of_not _ _ (by simp [skippable, opTok])
-    simp only [skipWs_clean _ c0, hd, List.nil_append, List.cons_append]
+    have hd : dropTriv false (opTok "=" :: r) = opTok "=" :: r :=
+      dropTriv_cons_of_not false _ _ (by simp [skippable, opTok])
+    simp only [skipWs_clean false _ c0, hd, List.nil_append, List.cons_append]
     have h := demoKey_check
     simp only [dnm, dop]
     rw [h.2] at h
